@@ -32,6 +32,10 @@ POINTER_CALLS = {"point_towards", "release_pointer", "update_set_incoming_pointe
 def check(model: Model, rep: Report, tier: str):
     from .common import depth_bound_assumption
     depth_bound_assumption(model, rep)
+    from .common import instance_state_rule
+    with rep.isolated():
+        instance_state_rule(model, rep, "C02.L11", "every graph lists its own nodes: containers that graph / composite classes change through self are bound per instance, "
+                            "not class-level objects shared by all graphs", keep=lambda c: "/structure/" in c.module.relpath.replace("\\", "/") and ("graph" in c.module.relpath or "composite" in c.module.relpath), floor=3)
     with rep.isolated():
         l1(model, rep)
     with rep.isolated():
